@@ -671,7 +671,7 @@ func main() {
 			"special: maps that configure PATH (every other case: a directory list without the standard utilities, empty, relative …), IFS, HOME, ENV, CDPATH, LANG … next to 1…5 ordinary variables – every variable must still arrive, whatever the order of assignment; " +
 			"reuse: one Environments object through 2–3 generations (build a script, change one variable and add one with Set – now and then SetAll –, build the next script): every script sets what is configured when it is built; " +
 			"two: the scripts of two environments are built one after the other and only then read and run, the first one first; " +
-			"adapt: values that contain the here-document terminators observed in earlier scripts of the same process; a quarter of the maps spread the terminator-like lines over two variables (one starts like the plain delimiter, another like the first prefixed candidates, each followed by a non-ASCII byte); names: the explicit list includes letters that fold onto ASCII under Unicode case folding (KELVIN SIGN, LONG S …); " +
+			"adapt: values that contain the here-document terminators observed in earlier scripts of the same process; a quarter of the maps put a line above 64 KiB in front of the terminator-like lines, another quarter spread those lines over two variables (one starts like the plain delimiter, another like the first prefixed candidates, each followed by a non-ASCII byte); names: the explicit list includes letters that fold onto ASCII under Unicode case folding (KELVIN SIGN, LONG S …); " +
 			"names: every name of length ≤ N (3 quick / 4 thorough) over a 24-symbol alphabet plus random longer ones through Set and SetAll; " +
 			"distinct = distinct (variant, map) / blocks, non-trivial = some value holds a shell-significant character",
 		Assumptions: []string{
